@@ -565,6 +565,23 @@ func TestVfPhantom(t *testing.T) {
 					emit(f)
 				}
 			}
+			if !vpn {
+				// every EtherType gopacket has a decoder for (and some it has none for), carrying an inner Ethernet frame, the bare
+				// upper layers of the valid frame, or noise - each after a valid frame: a two-layer chain that is not the scanned one
+				// (Ethernet in Ethernet, VLAN tags, MPLS, PPPoE ...) must not leave the previous frame's fields in place
+				ets := []int{0x6558, 0x8100, 0x88a8, 0x9100, 0x8847, 0x8848, 0x8863, 0x8864, 0x88cc, 0x888e, 0x2000, 0x0806, 0x0800, 0x86dd, 0x22f3, 0x88e5, 0x8035, 0x0842, 0x05dc, 0x0000, 0xffff}
+				for k := 0; k < 40; k++ {
+					ets = append(ets, rnd.Intn(65536))
+				}
+				for _, et := range ets {
+					noise := make([]byte, 40)
+					rnd.Read(noise)
+					for _, payload := range [][]byte{valid, valid[14:], noise, append([]byte{0, 5, 8, 6}, valid[14:]...), append([]byte{0, 5, 8, 0}, valid[14:]...)} {
+						emit(valid)
+						emit(append(vfEth(et), payload...))
+					}
+				}
+			}
 			for k := 0; k < nrand; k++ {
 				n := rnd.Intn(120)
 				f := make([]byte, n)
